@@ -194,7 +194,7 @@ def run(tier):
     # 3. within one process
     scratch = os.path.join(WORK, "c05_scratch")
     os.makedirs(scratch, exist_ok=True)
-    for ci, cfg in enumerate(["full", "dups"]):
+    for ci, cfg in enumerate(["full", "dups", "fn"]):
         gv(["repeat-lib", "--seed", seed() * 977 + ci, "--n", 40 if tier == "quick" else 600, "--rounds", RUNS, "--cfg", cfg, "--scratch", scratch, "--out", tr])
         total += validate(res, tr, None)
         os.remove(tr)
